@@ -2,7 +2,7 @@
    correspondence check.  ExtrOcamlBasic only: bool/option/unit/prod/list/sumbool/sumor map to
    the OCaml builtins; N, positive, nat stay the extracted inductive types. *)
 From Coq Require Import Extraction ExtrOcamlBasic.
-From Pocket Require Import Bytes Layout Access MatchSpec Hex Hll Ctor Keys Db ADb.
+From Pocket Require Import Bytes Layout Access MatchSpec Hex Hll Ctor Keys Db ADb Escape JsonParse Codec.
 Extraction "../runner/model.ml"
   N.of_nat N.to_nat N.add N.mul N.div N.modulo N.eqb N.ltb N.leb N.sub
   len beq
@@ -18,4 +18,7 @@ Extraction "../runner/model.ml"
   db_extra_put reopen rebuild is_replaceable is_param_replaceable is_ephemeral addr_parse
   a_init a_store a_remove a_vanish a_qualifying a_query a_redactable scrape_covered is_scrape a_extra_put
   has_id find_id del_time at_addr addr_of
+  json_escape json_unescape next_code_point encode_utf8 event_from_json filter_from_json tags_from_json
+  decode_event decode_filter event_bytes_as_json filter_bytes_as_json tags_bytes_as_json canon
+  event_as_json filter_as_json tags_as_json
   read_hex write_hex hll_new add_element merge from_hex to_hex zero_count.
